@@ -35,12 +35,13 @@ const (
 )
 
 type propSpec struct {
-	Test    string // -test.run regexp
-	Level   string // evidence level
-	Pkg     string // "props" (default) | "inpkg" | "plugin"
-	Procs   int    // GOMAXPROCS per worker (0 = 1)
-	Shards  int    // 0 = nproc
-	Profile string // instrumentation profile for the thorough tier ("" = core)
+	Test            string // -test.run regexp
+	Level           string // evidence level
+	Pkg             string // "props" (default) | "inpkg" | "plugin"
+	Procs           int    // GOMAXPROCS per worker (0 = 1)
+	Shards          int    // 0 = nproc
+	Profile         string // instrumentation profile ("" = duplex)
+	ThoroughProfile string // profile of the thorough tier ("" = same)
 }
 
 var registry = map[string]propSpec{
@@ -56,7 +57,7 @@ var registry = map[string]propSpec{
 	"C10": {Test: "^TestC10$", Level: "model_checking"},
 	"C11": {Test: "^TestC11$", Level: "model_checking"},
 	"C12": {Test: "^TestC12$", Level: "model_checking"},
-	"C13": {Test: "^TestC13$", Level: "model_checking"},
+	"C13": {Test: "^TestC13$", Level: "model_checking", Profile: "pools"},
 	"C14": {Test: "^TestC14$", Level: "model_checking"},
 	"C15": {Test: "^TestC15$", Level: "model_checking"},
 	"C16": {Test: "^TestC16$", Level: "model_checking"},
@@ -258,9 +259,12 @@ func main() {
 	}
 	seed, _ := strconv.ParseInt(os.Getenv("VERIF_SEED"), 10, 64)
 
-	profile := "core"
-	if tier == "thorough" && spec.Profile != "" {
+	profile := "duplex"
+	if spec.Profile != "" {
 		profile = spec.Profile
+	}
+	if tier == "thorough" && spec.ThoroughProfile != "" {
+		profile = spec.ThoroughProfile
 	}
 	bin := buildBinary(profile, false)
 
